@@ -100,16 +100,16 @@ ROUND3 = {
     "C18": " Round three: trace shape mkdirs ++ backup ++ [chmod]? ++ write (fix D93); rename onto a directory fails in the model as it does on disk.",
 }
 ROUND3B = {
-    "C01": " guessFilepath_never_devnull / _index_only (fix D104); finding D103.",
+    "C01": " guessFilepath_never_devnull / _index_only (fix D104); finding D103. New end-to-end theorems C01_run_newfile(_bare/_in_dir), C01_run_create*, C01_run_delete* (creation and removal of a file by a plain unified diff, whole program).",
     "C02": " regression D97 (line added behind an unterminated last line); admissibleB widened (fix D99/D109).",
     "C03": " locate_complete / locate_least_fuzz / locate_exact now hold for the wider admissibleB (a hunk may reach beyond the end of the file by the lines fuzz ignores at its end, and may be placed at the very end: fixes D99, D109); concrete instances C03.D99.",
     "C05": " regression D104; finding D108.",
-    "C06": " skipped/failed removal keeps an empty file (fix D110); finding D100.",
+    "C06": " skipped/failed removal keeps an empty file (fix D110); finding D100; C06_run_delete_again_N (a removal applied a second time with -N, end to end).",
     "C07": " extreme -p / -F values against every kind of header name (fix D98).",
     "C08": " candidates_bounded: size + 1 positions (fix D109).",
     "C10": " fault_is_fatal / fault_prefix have a third outcome: a failing chmod that has nothing to change is tolerated (fix D105); fault_is_fatal_unless_chmod.",
     "C14": " render_terminates_inner, text_read_write_id, output_inner_terminated (fix D97).",
-    "C15": " finding D107 (scenario with a limit on open files).",
+    "C15": " finding D107 (scenario with a limit on open files); C15_run_create_*_dry, C15_run_delete_dry.",
     "C16": " openRejects_replaces / openRejects_named_keeps_link (fix D101); git rename/copy without -p and Index-named creation families (seeded changes C16-m4, C16-m5); regression D106.",
     "C17": " submodule_mode_is_no_link (fix D102), chmod_fault_tolerated (fix D105).",
     "C18": " makeBackupFor_not_regular (fix D106), makeBackupFor_missing_replaces (fix D101); sections with two hunks (seeded change C18-m4).",
